@@ -104,7 +104,10 @@ def op_cases(draw, kind):
     bc = None if use_auto else draw(zero_flux_bc(gspec, rank, dtype, normal_value=(kind != "laplace")))
     onehot = draw(st.booleans())
     case = {"grid": gspec, "kind": kind, "dtype": dtype, "bc": bc, "seed": draw(st.integers(0, 2**31)),
-            "onehot": None}
+            "onehot": None,
+            # (after missed seed C05-6) "make_operator": the operator with the boundary conditions built in,
+            # as compiled right-hand sides use it - its ghost cells are set by the numba backend's own setter
+            "route": draw(st.sampled_from(["field", "make_operator"]))}
     if onehot:
         ncomp = dim_of(gspec) ** rank
         n = int(np.prod(gspec["shape"])) * ncomp
@@ -138,7 +141,12 @@ def check_operator(case):
     if case.get("corner_weight"):
         opts["corner_weight"] = case["corner_weight"]
     opname = "laplace" if kind == "laplace" else "divergence"
-    res = field.apply_operator(opname, bcs, **opts)
+    if case.get("route", "field") == "make_operator":
+        op = grid.make_operator(opname, bcs, backend="numba", **opts)
+        res = pde.ScalarField(grid, op(data.copy()), dtype=data.dtype)
+        field.set_ghost_cells(bcs)  # (only for the magnitude that enters the bound below)
+    else:
+        res = field.apply_operator(opname, bcs, **opts)
     vol = exact_cell_volumes(gspec)
     total = np.sum(vol * res.data)
     _, _, order = gf.op_info(opname)
@@ -165,7 +173,8 @@ def check_operator(case):
         raise Violation(f"field.integral {integ!r} differs from the volume-weighted sum {total!r}",
                         key=f"integral:{gspec['cls']}")
     boundary_grad = bool(np.any(data != 0))
-    labels = [f"grid:{grid_label(gspec)}", f"op:{opname}", "onehot" if case["onehot"] is not None else "dense",
+    labels = [f"grid:{grid_label(gspec)}", f"op:{opname}", f"route:{case.get('route', 'field')}",
+              "onehot" if case["onehot"] is not None else "dense",
               f"dtype:{dtype}", "bc:auto" if case["bc"] is None else f"bc:{case['bc']['style']}"]
     if case.get("corner_weight"):
         labels.append("9-point-stencil")
@@ -174,14 +183,17 @@ def check_operator(case):
 
 # ---------------------------------------------------------------------------------------
 SOLVERS = ["euler", "runge-kutta", "implicit", "crank-nicolson", "adams-bashforth", "scipy"]
-EQUATIONS = ["diffusion", "cahn-hilliard", "expr-ch", "expr-div"]
+# "expr-two": two species, the first with a reservoir (Dirichlet) condition given per operator via bc_ops, the
+# second - the judged one - with the general no-flux conditions (after missed seed C05-5: operators built for the
+# first variable were reused for the later ones)
+EQUATIONS = ["diffusion", "cahn-hilliard", "expr-ch", "expr-two", "expr-div"]
 
 
 @st.composite
 def sim_cases(draw, jit=False):
     gspec = draw(grids(min_cells=2, max_cells=5 if not jit else 4, max_total=60, len_lo=0.5, len_hi=20,
                        offset_mag=5.0, max_axes=2))
-    eq = draw(st.sampled_from(EQUATIONS if gspec["cls"] in ("unit", "cart") else EQUATIONS[:3]))
+    eq = draw(st.sampled_from(EQUATIONS if gspec["cls"] in ("unit", "cart") else EQUATIONS[:4]))
     solver = draw(st.sampled_from(SOLVERS))
     backend = draw(st.sampled_from(["numpy", "numba"]))
     dt = 10.0 ** draw(st.floats(-5, 0))
@@ -207,6 +219,7 @@ def check_simulation(case):
         names = gb.axis_names(gspec)
         bc = {nm: ("periodic" if per else {"derivative": 0}) for nm, per in zip(names, gspec["periodic"])}
     p = case["param"]
+    two = False
     if case["eq"] == "diffusion":
         eq = pde.DiffusionPDE(p, bc=bc)
     elif case["eq"] == "cahn-hilliard":
@@ -220,25 +233,36 @@ def check_simulation(case):
         eq = pde.CahnHilliardPDE(p, bc_c=bc_c, bc_mu=bc)
     elif case["eq"] == "expr-ch":
         eq = pde.PDE({"c": f"laplace(c**3 - c - {p} * laplace(c))"}, bc=bc)
+    elif case["eq"] == "expr-two":
+        names = gb.axis_names(gspec)
+        bc_a = {nm: ("periodic" if per else {"value": case["bc_c_value"]}) for nm, per in zip(names, gspec["periodic"])}
+        eq = pde.PDE({"a": "laplace(a) - 0.5 * a", "b": f"{p} * laplace(b)"}, bc=bc, bc_ops={"a:laplace": bc_a})
+        two = True
+        state = pde.FieldCollection([pde.ScalarField(grid, rng_array(case["seed"] + 1, tuple(gspec["shape"]), "f8",
+                                                                     "uniform", 1.0)), state])
     else:
         eq = pde.PDE({"c": f"divergence({p} * (1 + c**2) * gradient(c))"}, bc=bc,
                      bc_ops={"c:divergence": bc_flux(gspec)})
     vol = exact_cell_volumes(gspec)
     record = []
 
+    def judged_data(s):
+        return s[1].data if two else s.data
+
     def observe(s, t):
-        record.append((t, float(np.sum(vol * s.data)), bool(np.all(np.isfinite(s.data))),
-                       float(np.sum(vol * np.abs(s.data)))))
+        d = judged_data(s)
+        record.append((t, float(np.sum(vol * d)), bool(np.all(np.isfinite(s.data))), float(np.sum(vol * np.abs(d)))))
 
     dt, n = case["dt"], case["steps"]
     if case["solver"] in ("implicit", "crank-nicolson"):
         # the fixed-point iterations of these solvers only converge for dt*|L| < 1; keep the
         # (documented) ConvergenceError rare instead of rejecting a fifth of the cases
         dxmin = min((hi - lo) / k for (lo, hi), k in zip(axes_bounds(gspec), gspec["shape"]))
-        limit = 0.1 * dxmin**2 / max(p, 1.0) if case["eq"] in ("diffusion", "expr-div") else 0.02 * dxmin**4 / max(p, 1.0)
+        limit = 0.1 * dxmin**2 / max(p, 1.0) if case["eq"] in ("diffusion", "expr-div", "expr-two") \
+            else 0.02 * dxmin**4 / max(p, 1.0)
         dt = min(dt, limit)
     trackers = [pde.CallbackTracker(observe, interrupts=dt)]
-    if case["tracker"] in ("material", "both"):
+    if case["tracker"] in ("material", "both") and not two:  # (the first species is not conserved)
         trackers.append(pde.trackers.MaterialConservationTracker(interrupts=dt))
     kwargs = {}
     if case["solver"] == "scipy":
@@ -256,6 +280,7 @@ def check_simulation(case):
     i0 = float(np.sum(vol * data))
     scale = float(np.sum(vol * np.abs(data)))
     finite_end = bool(np.all(np.isfinite(final.data)))
+    final_data = judged_data(final)
     stop = info["controller"].get("stop_reason", "")
     judged = 0
     for k, (t, integ, finite, absint) in enumerate(record):
@@ -275,8 +300,8 @@ def check_simulation(case):
         raise Violation(f"MaterialConservationTracker stopped a conserving simulation: {stop}",
                         key="sim:material-tracker")
     if finite_end:
-        integ = float(np.sum(vol * final.data))
-        sc = max(scale, float(np.sum(vol * np.abs(final.data))))
+        integ = float(np.sum(vol * final_data))
+        sc = max(scale, float(np.sum(vol * np.abs(final_data))))
         tol = 256 * EPS * sc * max(1, n if case["solver"] != "scipy" else 50 * n) * 4
         if not abs(integ - i0) <= tol:
             raise Violation(
